@@ -95,3 +95,73 @@ func ParseIndex(b []byte) (f IndexFile, err error) {
 	}
 	return f, nil
 }
+
+// IndexLen is the byte length of a caibx/caidx file with n table items.
+func IndexLen(n int) int { return 48 + 16 + 40*n + 40 }
+
+// Deviation is one difference between a byte image and the caibx layout of an expected
+// table. Clause is a stable name of the layout rule that is broken.
+type Deviation struct {
+	Clause string
+	Msg    string
+}
+
+// CheckIndexLayout walks b along the layout that the table `want` must have and lists
+// every deviation (it does not stop at the first). Unlike ParseIndex it does not derive
+// the item count from the length, so that a wrong length, a wrong tail and trailing
+// bytes are told apart. Clauses: length, trailing-bytes, header-size, header-type,
+// header-flags, header-min, header-avg, header-max, table-size, table-type, item-offset,
+// item-id, tail-zero, tail-index-offset, tail-size, tail-marker.
+func CheckIndexLayout(b []byte, want IndexFile) (devs []Deviation) {
+	le := binary.LittleEndian
+	n := len(want.Items)
+	add := func(clause, format string, a ...any) {
+		for _, d := range devs { // one report per clause is enough
+			if d.Clause == clause {
+				return
+			}
+		}
+		devs = append(devs, Deviation{clause, fmt.Sprintf(format, a...)})
+	}
+	if len(b) != IndexLen(n) {
+		add("length", "file has %d bytes, a table of %d items needs 48+16+40*%d+40 = %d", len(b), n, n, IndexLen(n))
+	}
+	u64 := func(off int, clause string, wantV uint64) {
+		if off+8 > len(b) {
+			add(clause, "field at byte %d is missing (file has %d bytes)", off, len(b))
+			return
+		}
+		if v := le.Uint64(b[off:]); v != wantV {
+			add(clause, "field at byte %d is %#x, want %#x", off, v, wantV)
+		}
+	}
+	u64(0, "header-size", 48)
+	u64(8, "header-type", FormatIndexType)
+	u64(16, "header-flags", want.Flags)
+	u64(24, "header-min", want.Min)
+	u64(32, "header-avg", want.Avg)
+	u64(40, "header-max", want.Max)
+	u64(48, "table-size", ^uint64(0))
+	u64(56, "table-type", FormatTableType)
+	for i, it := range want.Items {
+		off := 64 + 40*i
+		u64(off, "item-offset", it.End)
+		if off+40 > len(b) {
+			add("item-id", "id of item %d is missing (file has %d bytes)", i, len(b))
+			continue
+		}
+		if string(b[off+8:off+40]) != string(it.ID[:]) {
+			add("item-id", "id of item %d is %x, want %x", i, b[off+8:off+40], it.ID[:])
+		}
+	}
+	t := 64 + 40*n
+	u64(t, "tail-zero", 0)
+	u64(t+8, "tail-zero", 0)
+	u64(t+16, "tail-index-offset", 48)
+	u64(t+24, "tail-size", uint64(16+40*n+40))
+	u64(t+32, "tail-marker", FormatTableTailMark)
+	if len(b) > IndexLen(n) {
+		add("trailing-bytes", "%d bytes follow the tail marker", len(b)-IndexLen(n))
+	}
+	return devs
+}
